@@ -373,7 +373,7 @@ func (osObj *VirtualOS) findMount(path string) (*Mount, string, bool) {
 			// Exact match
 			return v, "/", true
 		}
-		if strings.HasPrefix(path, k) {
+		if strings.HasPrefix(path, strings.TrimSuffix(k, "/")+"/") {
 			// Prefix match. Keep looking to confirm this is the longest match.
 			if match == nil || len(k) > len(match.Target) {
 				match = v
